@@ -26,12 +26,14 @@ def exhaustive(tier):
 
 def run_case(case, rec):
     d = Driver(case)
+    sched = common.observe_schedule(case)
+    rec.classify('queries after: ' + sched)
     for i, op in enumerate(case['ops']):
         r = d.step(op)
         if r['actual'] != r['expected']:
             rec.note('outcome_mismatch(left to C01)')
             break
-        if op[0] in ADD_OPS:
+        if op[0] in ADD_OPS and common.due(sched, i, len(case['ops']) - 1):
             common.check_snapshots(rec, 'C04', d.G, d.M, ctx='after op %d %r' % (i, op))
     for c in d.classes:
         rec.classify(c)
